@@ -199,7 +199,16 @@ def layout_pred(c, tier_budget=[60]):
 @st.composite
 def plot_cases(draw, tier):
     cfg = sim.base_cfg([draw(st.integers(4, 6)), draw(st.integers(4, 6)), draw(st.integers(4, 6)), draw(st.integers(4, 6))])
-    P = draw(st.integers(2, 4 if tier == "quick" else 7))
+    plot = draw(st.sampled_from([True, True, False]))
+    # precondition of the set-up: the ranks that hold data must admit a process grid for these extents (otherwise the
+    # set-up raises on those ranks only - an invalid configuration, not a schedule of interest)
+    npts = cfg["npts"]
+
+    def admissible(n):
+        m1, m2 = min(npts[0], npts[3]), min(npts[2], npts[3])
+        return any(n % a == 0 and n // a <= m2 for a in range(1, min(n, m1) + 1))
+    sizes = [p_ for p_ in range(2, (4 if tier == "quick" else 7) + 1) if admissible(p_ - 1 if plot else p_)]
+    P = draw(st.sampled_from(sizes))
     draw_rank = draw(st.integers(0, P - 1))
     ops = []
     for _ in range(draw(st.integers(1, 6))):
@@ -226,7 +235,7 @@ def plot_cases(draw, tier):
             ops.append({"op": "block", "root": root, "dict": d})
         else:
             ops.append({"op": "setLayout", "to": draw(st.sampled_from(list(sim.STD_LAYOUTS)))})
-    return {"cfg": cfg, "P": P, "drawRank": draw_rank, "plot": draw(st.sampled_from([True, True, False])), "ops": ops,
+    return {"cfg": cfg, "P": P, "drawRank": draw_rank, "plot": plot, "ops": ops,
             "layout": draw(st.sampled_from(list(sim.STD_LAYOUTS))), "seed": draw(st.integers(0, 2 ** 16)),
             "eager": draw(st.booleans()), "schedule": draw(gen.schedules(16))}
 
@@ -267,6 +276,12 @@ def _plot_rank(ctx, c):
 def plot_pred(c):
     cfg = c["cfg"]
     P = c["P"]
+    npts = cfg["npts"]
+    ncomp = P - 1 if c["plot"] else P
+    m1, m2 = min(npts[0], npts[3]), min(npts[2], npts[3])
+    if not any(ncomp % a == 0 and ncomp // a <= m2 for a in range(1, min(ncomp, m1) + 1)):
+        # precondition (see plot_cases): no process grid exists for the ranks that hold data
+        return {"nontrivial": False, "labels": ["no-process-grid"]}
     res, w = run_world(P, _plot_rank, (c,), schedule=c["schedule"], eager=c["eager"], key="C06:plotrank")
     kinds = {r[0] for r in res}
     if kinds == {"nogrid"}:
